@@ -254,6 +254,8 @@ def boomset_exc(failmap, x):
 def f_boomset(failmap, i, x, noargs=False):
     e = boomset_exc(failmap, x)
     if e is not None:
+        if noargs == 'unhashable':
+            raise exc_class(e)({'where': [str(source_leaf(x)[2])]})  # an exception that carries a dict (a payload)
         if noargs:
             raise exc_class(e)()  # exceptions without arguments are legal (`raise FilterException`)
         raise exc_class(e)(str(source_leaf(x)[2]))
@@ -262,6 +264,8 @@ def f_boomset(failmap, i, x, noargs=False):
 
 def boomset_model(failmap, i, x, noargs=False):
     e = boomset_exc(failmap, x)
+    if e is not None and noargs == 'unhashable':
+        return Raise(e, ({'where': [str(source_leaf(x)[2])]},) + (('detail',) if e == 'VCustomInit' else ()))
     if e is not None:
         if e == 'VCustomInit':
             return Raise(e, ('?' if noargs else str(source_leaf(x)[2]), 'detail'))
